@@ -531,6 +531,29 @@ def run_matrix_functions(ctx, table):
         ref = np.array([u[1] * v[2] - u[2] * v[1], u[2] * v[0] - u[0] * v[2], u[0] * v[1] - u[1] * v[0]])
         if not out.returned or not close(out.value, ref):
             ctx.violation('C15:value:cross', 'cross(%r,%r): %r, expected %r' % (u, v, out.brief(), ref), {'u': u, 'v': v})
+        # mixed element types, narrower one first: the result has the wider type
+        ur, vc = rand((3,), False), rand((3,), True)
+        ui = np.array([float(rng.randint(-3, 3)) for _ in range(3)]).astype(int)
+        vf = rand((3,), False)
+        for a_, b_, tag_ in ((ur, vc, 'real x complex'), (vc, ur, 'complex x real'), (ui, vf, 'int x float'), (ui, vc, 'int x complex')):
+            out = call_fn(ctx, table, 'cross', [MathArray(a_), MathArray(b_)])
+            ctx.ev()
+            ctx.count('matrix_function_checks')
+            ref = np.cross(np.asarray(a_, dtype=complex), np.asarray(b_, dtype=complex))
+            if not out.returned or not close(out.value, ref):
+                ctx.violation('C15:value:cross:mixed_types', 'cross (%s): %r, expected %r' % (tag_, out.brief(), ref), {'u': a_, 'v': b_, 'types': tag_})
+        # surplus arguments to the matrix functions: an argument error, never numpy's optional parameters
+        for nm_ in ('norm', 'trans', 'det', 'trace', 'adj', 'ctrans', 'abs', 'cross'):
+            if nm_ not in table:
+                continue
+            base_ = [MathArray(rand((3, 3), False))] if nm_ in ('det', 'trace', 'trans', 'adj', 'ctrans') else [MathArray(u)] if nm_ != 'cross' else [MathArray(u), MathArray(v)]
+            for extra_ in ([1.0], [0.0], [2.0, 0.0], [MathArray(u)]):
+                out = call_fn(ctx, table, nm_, base_ + extra_)
+                ctx.ev()
+                ctx.count('arity_errors')
+                if out.returned or type(out.exc).__name__ != 'ArgumentError':
+                    ctx.violation('C15:arity:' + nm_, '%s with %d arguments: %r' % (nm_, len(base_) + len(extra_), out.brief()),
+                                  {'function': nm_, 'surplus': [repr(x)[:30] for x in extra_]})
         bad = rand(rng.choice([(2,), (4,), (3, 3)]), False)
         out = call_fn(ctx, table, 'cross', [MathArray(u), MathArray(bad)])
         ctx.ev()
